@@ -793,7 +793,7 @@ def gen_ipcw_case(ctx):
         nsub = r.randint(14, 30)
         tmax = r.randint(3, 5)
         half = r.random() < 0.3
-        variant = r.choice(['plain', 'plain', 'plain', 'dupkey', 'early-event'])
+        variant = r.choice(['plain', 'plain', 'plain', 'dupkey', 'early-event', 'fine-time-units'])
         rows = []
         for i in range(nsub):
             x = round(r.gauss(0, 1), 2)
@@ -811,6 +811,13 @@ def gen_ipcw_case(ctx):
             for t in range(1, T + 1):
                 rows.append({'id': sid, 't': float(t) - (0.5 if half else 0.0), 'd': int(ev and t == T), 'x': x,
                              'z': round(r.gauss(0.2 * t, 1), 2)})
+        if variant == 'fine-time-units':
+            # follow-up in minutes since enrolment (first visit at 1, later visits every 100000 minutes, some subjects seen a few
+            # minutes earlier): only a record AT the last time of the file is the administrative end of follow-up
+            jit = {sid: r.choice([0, 0, 1, 2, 3]) for sid in {q['id'] for q in rows}}
+            for q in rows:
+                tt = int(round(q['t'] + (0.5 if half else 0.0)))
+                q['t'] = 1.0 if tt == 1 else float((tt - 1) * 100000 + 1 - jit[q['id']])
         if variant == 'dupkey':
             for _ in range(2):
                 src = dict(r.choice(rows))
@@ -840,7 +847,8 @@ def gen_ipcw_case(ctx):
         df = pd.DataFrame(rows)
         df['rid'] = np.arange(len(df))
         df, kind = datagen.reindex(df, r)
-        cs = {'part': 'ipcw', 'frame': frame_to_case(df), 'den': r.choice(['t + x + z', 't + x', 'x + z']), 'num': r.choice(['t', '1']),
+        cs = {'part': 'ipcw', 'frame': frame_to_case(df), 'den': r.choice(['t + x + z', 't + x', 'x + z']) if variant != 'fine-time-units' else 'x + z',
+              'num': r.choice(['t', '1']) if variant != 'fine-time-units' else '1',
               'variant': variant, 'order': order, 'index_kind': kind, 'half': half, 'perm_seed': r.randrange(2 ** 31)}
         if ipcw_fits_exist(cs):
             return cs
